@@ -19,7 +19,8 @@ PROPS = {
         dict(name='wide:eval', n=n(16, 160), view='result', case_timeout=60.0),
         dict(name='vchain:eval', n=n(16, 120), view='result', case_timeout=120.0),
         dict(name='script', n=n(20000, 500000), view='script_exec', oracle='none'),
-        dict(name='cmp', n=n(40000, 1500000), oracle='none'),
+        # the ordering / equality table of the language definition IS the model's Value.cmp / Value.eq (Appendix A): a disagreement is a failing input
+        dict(name='cmp', n=n(40000, 1500000), oracle='model'),
         dict(name='num', n=n(40000, 1500000), oracle='none'),
     ],
     rule='evaltable: every operator x 27 operands (all kinds, undefined, failing) x 27 in binary position, + unary and ternary positions, enumerated; '
